@@ -3,7 +3,10 @@
 Tie A (regeneration): the decisive parts of recompiler._make_c_or_py_source (which file is read and compared,
 the comparison, which file is written, what is written, the rename arguments, the fallback, the return values)
 are extracted from the current source by a shape-matching driver into coq/C23/Gen.v (record `the_holes`);
-coq/C23/Props.v (up-to-date => no mutation; atomic replacement at every crash point; ...) is re-checked.
+the iteration audit of the emitter (tools/props/c23_audit.py: every use of a set-valued expression, every dict
+iteration, every process-dependent call in recompiler.py / cffi_opcode.py / model.py / cparser.py, classified) is
+regenerated into the same file (`audit_sites`); coq/C23/Props.v (up-to-date => no mutation; atomic replacement at
+every crash point; every audited site covered by an order-independence theorem; composite emitter theorem) is re-checked.
 Tie B (correspondence): the real function is run (through ffi.emit_c_code / emit_python_code) with every
 I/O call (open, read, write, close, os.rename, os.unlink) intercepted: the logged operation trace is compared
 with the model's trace, and for every k the process is killed at the k-th I/O call and the target inspected
@@ -19,6 +22,7 @@ from lib import py2coq, vlib
 from lib.py2coq import Untranslatable
 from lib.vlib import cbool, cbytes, clist, cn, copt, cpair, cstr, cz
 from props import c35
+from props import c23_audit
 
 ID = "C23"
 GEN = os.path.join(vlib.COQ, "C23", "Gen.v")
@@ -100,7 +104,9 @@ def skeleton(fdef):
         ret2.value = _hole(12)
     except (AssertionError, AttributeError, IndexError, ValueError, TypeError) as e:
         raise Untranslatable("_make_c_or_py_source: unexpected shape (%s)" % type(e).__name__)
-    body = [s for s in f.body]
+    # the statements that compute `output` and the try block; what precedes (verbose message, file-like targets)
+    # does not touch the target file
+    body = f.body[-4:]
     return "\n".join(py2coq.shape(s) for s in body), h
 
 
@@ -144,7 +150,10 @@ def translate(repo):
     return "\n".join([
         "(* GENERATED by tools/props/c23.py from %s (_make_c_or_py_source) — do not edit; regenerated on every run. *)" % SRC,
         "From Coq Require Import List NArith ZArith Bool.", "Import ListNotations.",
-        "From Cffi Require Import C35.PyStr C35.Model C23.Model.", "",
+        "From Cffi Require Import C35.PyStr C35.Model C23.Model C23.AuditModel.", "Open Scope N_scope.", "",
+        "(* every use of a set-valued expression, every dict iteration and every process-dependent call in the four",
+        "   files that produce the emitted text (tools/props/c23_audit.py) *)",
+        c23_audit.gallina(c23_audit.audit(repo)),
         "Definition the_holes : holes := {|",
         "  h_read_path := %s;                                   (* open(%s, 'r') *)" % (path(h["read_path"]), h["read_path"].id),
         "  h_read_extra := (%d)%%Z;                              (* f1.read(len(output) + %d) *)" % (
@@ -160,136 +169,23 @@ def translate(repo):
         "|}.", ""])
 
 
-# ---------------------------------------------------------------------------- iteration audit (determinism)
-
-AUDITED = ["src/cffi/recompiler.py", "src/cffi/cffi_opcode.py"]
-SET_METHODS_OK = {"add", "discard", "remove", "update", "clear", "copy"}
-
-
-def iteration_audit(repo):
-    """Every set-valued expression of the emitter must be used only for membership, mutation, or through
-    sorted(...) — never iterated in hash order (C23_sorted_emission_order is what makes sorted(...) sites
-    order-independent).  One iteration is allowed without sorted(): a set to which at most one distinct
-    constant is ever added (`freelines`).  Returns (sites, problems)."""
-    sites, problems = [], []
-    for rel in AUDITED:
-        tree = py2coq.parse_source(os.path.join(repo, rel))
-        parents = {}
-        for node in ast.walk(tree):
-            for ch in ast.iter_child_nodes(node):
-                parents[ch] = node
-        # names / attributes that hold sets
-        setnames = set()
-        for node in ast.walk(tree):
-            if isinstance(node, ast.Assign) and is_set_expr(node.value, ()):
-                for t in node.targets:
-                    if isinstance(t, ast.Name):
-                        setnames.add(t.id)
-                    elif isinstance(t, ast.Attribute):
-                        setnames.add(t.attr)
-        # constants added to each set (for the singleton exception)
-        added = {}
-        for node in ast.walk(tree):
-            if isinstance(node, ast.Call) and isinstance(node.func, ast.Attribute) and node.func.attr in ("add", "update"):
-                nm = ref_name(node.func.value)
-                if nm in setnames:
-                    arg = node.args[0] if node.args else None
-                    added.setdefault(nm, set()).add(
-                        ("const", arg.value) if node.func.attr == "add" and isinstance(arg, ast.Constant) else ("other", ast.dump(node)))
-        for node in ast.walk(tree):
-            if not is_set_expr(node, setnames):
-                continue
-            if isinstance(node, (ast.Name, ast.Attribute)) and isinstance(getattr(node, "ctx", None), ast.Store):
-                continue
-            par = parents.get(node)
-            where = "%s:%d" % (rel, getattr(node, "lineno", 0))
-            nm = ref_name(node) or "<set expression>"
-            use = classify_use(node, par, parents)
-            if use == "iterated":
-                vals = added.get(nm, {("other", "?")})
-                if all(k == "const" for k, _ in vals) and len(vals) <= 1:
-                    sites.append((where, nm, "iterated: singleton (only %r is ever added)" % (sorted(vals)[0][1][:40] if vals else None)))
-                else:
-                    problems.append("%s: set `%s` is iterated in hash order" % (where, nm))
-            elif use == "escapes":
-                problems.append("%s: set `%s` is used in a way the audit does not know (%s)" % (
-                    where, nm, type(par).__name__))
-            else:
-                sites.append((where, nm, use))
-        for node in ast.walk(tree):
-            if isinstance(node, ast.Call) and isinstance(node.func, ast.Name) and node.func.id == "sorted":
-                sites.append(("%s:%d" % (rel, node.lineno), "sorted(...)", "sorted"))
-    return sites, problems
-
-
-def ref_name(node):
-    if isinstance(node, ast.Name):
-        return node.id
-    if isinstance(node, ast.Attribute):
-        return node.attr
-    return None
-
-
-def is_set_expr(node, setnames):
-    if isinstance(node, (ast.Set, ast.SetComp)):
-        return True
-    if isinstance(node, ast.Call) and isinstance(node.func, ast.Name) and node.func.id in ("set", "frozenset"):
-        return True
-    if isinstance(node, ast.Name) and node.id in setnames:
-        return True
-    if isinstance(node, ast.Attribute) and node.attr in setnames and not isinstance(node.ctx, ast.Store):
-        return True
-    return False
-
-
-def classify_use(node, par, parents):
-    if isinstance(par, ast.Assign) and par.value is node:
-        return "assigned"
-    if isinstance(par, ast.Compare) and node in par.comparators and all(isinstance(o, (ast.In, ast.NotIn)) for o in par.ops):
-        return "membership"
-    if isinstance(par, ast.Attribute) and par.value is node:
-        gp = parents.get(par)
-        if isinstance(gp, ast.Call) and gp.func is par and par.attr in SET_METHODS_OK:
-            return "mutated"
-        return "escapes"
-    if isinstance(par, ast.Call) and node in par.args:
-        if isinstance(par.func, ast.Name) and par.func.id == "sorted":
-            return "sorted"
-        if isinstance(par.func, ast.Name) and par.func.id in ("len", "bool", "set", "frozenset"):
-            return "size/copy"
-        if isinstance(par.func, ast.Attribute) and isinstance(par.func.value, ast.Name) and par.func.value.id == "self":
-            return "passed to a method (parameter of the same name is audited)"
-        return "iterated" if isinstance(par.func, ast.Name) and par.func.id in (
-            "list", "tuple", "enumerate", "iter", "map", "filter", "zip", "sum", "min", "max", "any", "all") else "escapes"
-    if isinstance(par, (ast.For, ast.comprehension)) and par.iter is node:
-        return "iterated"
-    if isinstance(par, (ast.If, ast.While, ast.BoolOp, ast.UnaryOp)):
-        return "truth value"
-    if isinstance(par, ast.arguments) or isinstance(par, ast.arg):
-        return "parameter"
-    return "escapes"
-
-
 def regen(ctx):
     c35.regen_file(ctx, GEN, translate)
     try:
-        sites, problems = iteration_audit(vlib.REPO)
-    except (SyntaxError, OSError) as e:
+        sites = c23_audit.audit(vlib.REPO)
+        problems = c23_audit.problems(sites)
+    except Untranslatable as e:
         sites, problems = [], ["cannot audit: %s" % e]
-    ctx.extra["iteration_audit"] = dict(files=AUDITED, sites=["%s %s: %s" % x for x in sites], problems=problems)
+    ctx._c23_sites = sites
+    ctx.extra["iteration_audit"] = dict(files=[f for f, _ in c23_audit.FILES], problems=problems,
+                                        sites=["%s:%d %s %s  %s" % s for s in sites])
     ctx._c23_audit_problems = problems
 
 
-SKELETON = r"""If(Name('verbose', Load()), [Expr(Call(Name('print', Load()), [BinOp(Constant('generating %s'), Mod(), Tuple([Name('target_file', Load())], Load()))], []))], [])
-Assign([Name('recompiler', Store())], Call(Name('Recompiler', Load()), [Name('ffi', Load()), Name('module_name', Load())], [keyword('target_is_python', Compare(Name('preamble', Load()), [Is()], [Constant(None)]))]))
-Expr(Call(Attribute(Name('recompiler', Load()), 'collect_type_table', Load()), [], []))
-Expr(Call(Attribute(Name('recompiler', Load()), 'collect_step_tables', Load()), [], []))
-If(Call(Name('_is_file_like', Load()), [Name('target_file', Load())], []), [Expr(Call(Attribute(Name('recompiler', Load()), 'write_source_to_f', Load()), [Name('target_file', Load()), Name('preamble', Load())], [])), Return(Constant(True))], [])
-Assign([Name('f', Store())], Call(Name('NativeIO', Load()), [], []))
+SKELETON = r"""Assign([Name('f', Store())], Call(Name('NativeIO', Load()), [], []))
 Expr(Call(Attribute(Name('recompiler', Load()), 'write_source_to_f', Load()), [Name('f', Load()), Name('preamble', Load())], []))
 Assign([Name('output', Store())], Call(Attribute(Name('f', Load()), 'getvalue', Load()), [], []))
 Try([With([withitem(Call(Name('open', Load()), [Name('HOLE_1', Load()), Constant('r')], []), Name('f1', Store()))], [If(Compare(Call(Attribute(Name('f1', Load()), 'read', Load()), [BinOp(Call(Name('len', Load()), [Name('output', Load())], []), Add(), Name('HOLE_2', Load()))], []), [NotEq()], [Name('HOLE_3', Load())]), [Raise(Name('OSError', Load()))], [])]), If(Name('verbose', Load()), [Expr(Call(Name('print', Load()), [Constant('(already up-to-date)')], []))], []), Return(Name('HOLE_4', Load()))], [ExceptHandler(Name('OSError', Load()), body=[Assign([Name('tmp_file', Store())], BinOp(Constant('%s.~%d'), Mod(), Tuple([Name('target_file', Load()), Call(Attribute(Name('os', Load()), 'getpid', Load()), [], [])], Load()))), With([withitem(Call(Name('open', Load()), [Name('HOLE_5', Load()), Constant('w')], []), Name('f1', Store()))], [Expr(Call(Attribute(Name('f1', Load()), 'write', Load()), [Name('HOLE_6', Load())], []))]), Try([Expr(Call(Attribute(Name('os', Load()), 'rename', Load()), [Name('HOLE_7', Load()), Name('HOLE_8', Load())], []))], [ExceptHandler(Name('OSError', Load()), body=[Expr(Call(Attribute(Name('os', Load()), 'unlink', Load()), [Name('HOLE_9', Load())], [])), Expr(Call(Attribute(Name('os', Load()), 'rename', Load()), [Name('HOLE_10', Load()), Name('HOLE_11', Load())], []))])], [], []), Return(Name('HOLE_12', Load()))])], [], [])"""
-
 
 # ---------------------------------------------------------------------------- generators
 
@@ -363,9 +259,16 @@ def gen_cdef(rng):
 PREAMBLES = ["", "#include <stddef.h>\n", "/* é */\n#include <stdint.h>\n", "static int helper(void) { return 1; }\n"]
 
 
-def gen_emit_case(rng):
-    return dict(kind="emit", cdef=gen_cdef(rng), name=rng.choice(["_m", "pkg._ext", "_c23_mod"]),
-                preamble=rng.choice(PREAMBLES))
+def gen_emit_case(rng, include=False):
+    c = dict(kind="emit", cdef=gen_cdef(rng), name=rng.choice(["_m", "pkg._ext", "_c23_mod"]),
+             preamble=rng.choice(PREAMBLES))
+    if include:      # ffi.include(): reaches the _included_declarations sites
+        c["included"] = ("typedef struct base_s { int bx; struct base_s *next; } base_t;\n"
+                         "enum base_e { BASE_A, BASE_B };\ntypedef int base_int_t;\n#define BASE_K 7\n")
+        c["cdef"] += ("base_t *use_base(base_t *, enum base_e, base_int_t);\nstruct uses_base { base_t b; base_t *p; };\n"
+                      "void takes_ptrs(char *, base_t *);\ntypedef int multi_a, multi_b;\n"
+                      "typedef struct { int q; } *anon_ptr_t;\nanon_ptr_t get_anon(void);\n")
+    return c
 
 
 def gen_write_case(rng, mode=None, old=None, cr=False):
@@ -383,7 +286,7 @@ def gen_write_case(rng, mode=None, old=None, cr=False):
 
 def generate(ctx, big=False):
     rng = ctx.rng
-    cases = [gen_emit_case(rng) for _ in range(10 if not big else 50)]
+    cases = [gen_emit_case(rng, include=(i % 4 == 0)) for i in range(10 if not big else 50)]
     fixed = [("py", "absent"), ("py", "same"), ("py", "different"), ("c", "same"), ("c", "different"), ("py", "longer"),
              ("py", "prefix"), ("c", "absent"), ("py", "crlf")]
     cases += [gen_write_case(rng, m, o) for m, o in fixed]
@@ -450,11 +353,21 @@ def evaluate(ctx, cases):
     if emits:
         per_seed = []
         for seed in SEEDS:
-            out, p = s.run_worker("c23_worker.py", dict(cases=emits), timeout=1200, hashseed=seed)
+            payload = [dict(c, cov=True) for c in emits] if seed == SEEDS[-1] else emits
+            out, p = s.run_worker("c23_worker.py", dict(cases=payload), timeout=1200, hashseed=seed)
             if out is None:
                 ctx.violation(emits[0], "worker failed: " + (p.stderr[-1500:] or p.stdout[-500:]))
                 return
             per_seed.append(out["results"])
+            if out.get("cov"):
+                hit = {(t, l) for t, l in out["cov"]}
+                sites = getattr(ctx, "_c23_sites", None) or []
+                seen = ctx.extra.setdefault("audit_sites_hit", {})
+                for t, l, cont, use, text in sites:
+                    key = "%s:%d %s %s  %s" % (t, l, cont, use, text)
+                    seen[key] = bool(seen.get(key)) or (t, l) in hit
+                ctx.extra["audit_sites_hit_summary"] = "%d of %d audited sites executed during cdef()+emit of the sampled cdefs" % (
+                    sum(1 for v in seen.values() if v), len(seen))
         for i, c in enumerate(emits):
             rs = [ps[i] for ps in per_seed]
             if any("cdef_error" in r for r in rs):
@@ -572,8 +485,8 @@ def run(ctx):
         evaluate(ctx, generate(ctx, big=True))
     if audit and not ctx.violations:
         # the emitter iterates a set in hash order but no differing output was found
-        ctx.obligation_broken("C23 iteration audit (hypothesis of C23_sorted_emission_order: hash-ordered containers "
-                              "are only iterated through sorted)", "\n".join(audit))
+        ctx.obligation_broken("C23 iteration audit (C23_audit_sites_ok: a use of a set / a process-dependent call that no "
+                              "theorem covers)", "\n".join(audit))
 
 
 MANIFEST = dict(
@@ -584,7 +497,12 @@ MANIFEST = dict(
          "updated' only if the text is the same; after any prefix of the operations of the POSIX path the target holds "
          "the old or the new content; on completion target = new and no temporary is left. Refuted for content with "
          "'\\r' (rewritten every run: known finding cr_in_source); the non-POSIX fallback is shown non-atomic (outside "
-         "the quantifier). Determinism of the emitted text is sampled: partial.",
-    note="Partial: determinism by sampling. Trusted: Coq kernel; hand-written skeleton (tied by trace correspondence); "
+         "the quantifier). Determinism: the site list of the emitter (uses of sets, dict iterations, process-dependent calls) "
+         "is regenerated from four source files each run; every site must fall in a class with a proved "
+         "order-independence theorem (commutative fold, sorted with distinct keys, singleton, insertion-ordered dict), "
+         "composed into: an emitter that looks at sets only through such consumers produces the same text for every "
+         "delivery order. That recompiler.py is such an emitter is audited syntactically, not proved; bytes are also "
+         "sampled across hash seeds on cdefs reaching every audited site (evidence lists sites hit).",
+    note="Partial: determinism = regenerated audit + class theorems + sampling (the link audit->code is syntactic). Trusted: Coq kernel; hand-written skeleton (tied by trace correspondence); "
          "the hole-extraction driver; atomic rename(2).",
     design_ref="DESIGN.md §4 C23")
